@@ -249,6 +249,7 @@ func c20NewWorld(nsets int, delay func()) *c20World {
 func (w *c20World) do(client int, in c20In) (c20Out, string) {
 	call := atomic.AddInt64(&w.rec.clock, 1)
 	out := c20Out{id: -1}
+	useIso := ""
 	var tpl *pongo2.Template
 	switch in.kind {
 	case "fromcache":
@@ -281,32 +282,56 @@ func (w *c20World) do(client int, in c20In) (c20Out, string) {
 		l.mu.Lock()
 		before := l.okGets[in.name]
 		l.mu.Unlock()
+		w.store.mu.Lock()
+		v0, b0, f0 := w.store.version[in.name], w.store.broken[in.name], w.store.failing[in.name]
+		w.store.mu.Unlock()
+		var text string
+		var uerr error
 		func() {
-			defer func() { recover() }() // RenderTemplateFile panics (documented, Must) when the template cannot be created
+			defer func() {
+				if r := recover(); r != nil { // RenderTemplateFile panics (documented, Must) when the template cannot be created
+					uerr = fmt.Errorf("panic: %v", r)
+				}
+			}()
 			set := w.sets[in.set]
 			var t *pongo2.Template
-			var err error
 			switch in.arg {
 			case 0:
-				t, err = set.FromFile(in.spell())
+				t, uerr = set.FromFile(in.spell())
 			case 1:
-				t, err = set.FromString(`{% include "` + in.spell() + `" %}`)
+				t, uerr = set.FromString(`{% include "` + in.spell() + `" %}`)
 			case 2:
-				t, err = set.FromString(`{% include n %}{% include n if_exists %}`)
+				t, uerr = set.FromString(`{% include n %}`)
 			case 3:
-				set.RenderTemplateFile(in.spell(), nil)
+				text, uerr = set.RenderTemplateFile(in.spell(), nil)
 			case 4:
-				t, err = set.FromString(`{% extends "` + in.spell() + `" %}`)
+				t, uerr = set.FromString(`{% extends "` + in.spell() + `" %}`)
 			default:
-				t, err = set.FromString(`{% ssi "` + in.spell() + `" parsed %}`)
+				t, uerr = set.FromString(`{% ssi "` + in.spell() + `" parsed %}`)
 			}
-			if err == nil && t != nil {
-				t.Execute(pongo2.Context{"n": in.spell()})
+			if uerr == nil && t != nil {
+				text, uerr = t.Execute(pongo2.Context{"n": in.spell()})
 			}
 		}()
 		l.mu.Lock()
 		out.ver = l.okGets[in.name] - before // exact in sequential histories only
 		l.mu.Unlock()
+		w.store.mu.Lock()
+		stable := v0 == w.store.version[in.name] && b0 == w.store.broken[in.name] && f0 == w.store.failing[in.name]
+		w.store.mu.Unlock()
+		if stable && !b0 && !f0 {
+			// the name is available and did not change meanwhile: whatever way it is used in this set, it is this set's
+			// loader, globals and options that serve it
+			body := "\nT"
+			if w.trim[in.set] {
+				body = "T"
+			}
+			want := fmt.Sprintf("%s#%d|%s|%s", in.name, v0, w.globals[in.set], body)
+			if uerr != nil || text != want {
+				useIso = fmt.Sprintf("use of %q in set%d by %s rendered %q (error: %v); this set's loader, globals and options give %q", in.spell(), in.set,
+					[]string{"FromFile", "static include", "computed-name include", "RenderTemplateFile", "extends", "ssi parsed"}[in.arg], text, uerr, want)
+			}
+		}
 	}
 	ret := atomic.AddInt64(&w.rec.clock, 1)
 	iso := ""
@@ -344,8 +369,13 @@ func (w *c20World) do(client int, in c20In) (c20Out, string) {
 		}
 	}
 	w.rec.record(client, in, call, out, ret)
+	if iso == "" {
+		iso = useIso
+	}
 	return out, iso
 }
+
+var c20VerCounter int64 = 1000 // content versions handed out to concurrent writers (unique per process)
 
 func c20RandOp(r *Rng, nsets int, names []string, concurrent bool) c20In {
 	set := r.Intn(nsets)
@@ -365,6 +395,10 @@ func c20RandOp(r *Rng, nsets int, names []string, concurrent bool) c20In {
 		return c20In{kind: "use", set: set, name: name, spelled: spelled, arg: r.Intn(6)}
 	default:
 		if concurrent {
+			// the content of a file may change while other clients load, clean and look up (Debug is only toggled at barriers)
+			if r.Bool() {
+				return c20In{kind: "setcontent", name: name, arg: int(atomic.AddInt64(&c20VerCounter, 1))}
+			}
 			return c20In{kind: "fromcache", set: set, name: name, spelled: spelled}
 		}
 		switch r.Intn(4) {
